@@ -114,7 +114,13 @@ def rx_case(draw):
         elif kind == 'reg':
             level = draw(st.sampled_from(['node', 'module', 'param']))
             target = draw(st.sampled_from(idents)) if idents else ('m0', 'value', None)
-            ops.append({'op': 'reg', 'id': nreg, 'level': level, 'mod': target[0], 'wire': target[1], 'cb': draw(st.sampled_from(['updateItem', 'updateEvent']))})
+            op = {'op': 'reg', 'id': nreg, 'level': level, 'mod': target[0], 'wire': target[1], 'cb': draw(st.sampled_from(['updateItem', 'updateEvent']))}
+            if draw(st.integers(0, 2)) == 0:
+                # the callback unregisters itself from inside its life-th call after registration:
+                # by raising UnregisterCallback or by calling unregister_callback
+                op['life'] = draw(st.integers(1, 3))
+                op['how'] = draw(st.sampled_from(['raise', 'call']))
+            ops.append(op)
             nreg += 1
         elif nreg:
             ops.append({'op': 'unreg', 'id': draw(st.integers(0, nreg - 1))})
@@ -156,7 +162,8 @@ def check_rx(ctx, case):
 
     def mk_reg(op):
         def hook():
-            r = {'level': op['level'], 'mod': op['mod'], 'wire': op['wire'], 'cbname': op['cb'], 'calls': [], 'active': True}
+            r = {'level': op['level'], 'mod': op['mod'], 'wire': op['wire'], 'cbname': op['cb'], 'calls': [], 'active': True,
+                 'life': op.get('life'), 'how': op.get('how'), 'seen': 0, 'exp_seen': 0, 'registering': True}
             key = key_of(r)
 
             def cbfunc(*args, r=r):
@@ -168,6 +175,13 @@ def check_rx(ctx, case):
                 else:
                     m, p, v, t, e = args
                     r['calls'].append((m, p, rm.canon(v), t, e))
+                if r['life'] and not r['registering']:
+                    r['seen'] += 1
+                    if r['seen'] == r['life']:
+                        state['selfunreg'] = state.get('selfunreg', 0) + 1
+                        if r['how'] == 'raise':
+                            raise fc.UnregisterCallback()
+                        client.unregister_callback(r['key'], **{r['cbname']: r['func']})
             cbfunc.__name__ = op['cb']
             r['func'] = cbfunc
             r['key'] = key
@@ -179,6 +193,7 @@ def check_rx(ctx, case):
                     init.append(mp + model[mp])
             expected[op['id']] = init
             client.register_callback(key, **{op['cb']: cbfunc})
+            r['registering'] = False
             if state['nmsg']:
                 state['midreg'] = True
         return hook
@@ -232,6 +247,10 @@ def check_rx(ctx, case):
             for rid, r in regs.items():
                 if r['active'] and (r['key'] is None or r['key'] == mp[0] or r['key'] == mp):
                     expected[rid].append(mp + entry)
+                    if r['life']:
+                        r['exp_seen'] += 1
+                        if r['exp_seen'] == r['life']:
+                            r['active'] = False     # it takes itself off the list during this call
             plan.append(('applied', op))
         return hook
     for op in case['ops']:
@@ -300,6 +319,8 @@ def check_rx(ctx, case):
         ctx.nt(('rx', repr(case['ops']), json.dumps(case['classes'], sort_keys=True, default=repr)))
     for kind, _ in plan:
         ctx.label(f'msg:{kind}')
+    if state.get('selfunreg'):
+        ctx.label('rx:callback-unregistered-itself')
     ctx.sample({'ops': case['ops'][:8], 'n_ops': len(case['ops'])}, every=97)
 
 
